@@ -39,6 +39,19 @@ def build(cfg):
     modekey = "interp_mode" if cfg["syn"] in ("delta", "deltaplus") else "spike_interp_mode"
     kw[modekey] = cfg["interp"]
     co, so = cfg["overbound"]
+    if cfg.get("via_setter"):
+        # the same configuration reached through property assignment after construction (step time, and the spike charge where it is assignable)
+        kw2 = dict(kw)
+        if "spike_charge" in kw2:
+            kw2["spike_charge"] = kw2["spike_charge"] * 3.0      # (not the same factor as dt: Q / dt must change)
+        syn = getattr(neural, name)(tuple(cfg["shape"]), cfg["dt"] * 2.0, delay=cfg["delay"], interp_tol=cfg["tol"], current_overbound=co, spike_overbound=so,
+                                    batch_size=cfg["B"], inplace=cfg["inplace"], **kw2)
+        syn.dt = cfg["dt"]
+        if "spike_charge" in kw:
+            syn.spike_charge = kw["spike_charge"]          # a plain attribute of every shipped synapse
+        if cfg["delay"]:
+            syn.delay = cfg["delay"]
+        return syn
     return getattr(neural, name)(tuple(cfg["shape"]), cfg["dt"], delay=cfg["delay"], interp_tol=cfg["tol"], current_overbound=co, spike_overbound=so,
                                  batch_size=cfg["B"], inplace=cfg["inplace"], **kw)
 
@@ -279,13 +292,17 @@ def checks(tier):
                                 for inplace in ((False, True) if th else (bool(ptr % 2),)):
                                     dl.append(dict(syn=syn, dt=dt, delay=delay, B=1, shape=(2,), inplace=inplace, interp=interp, tol=tol, overbound=ob, ptr=ptr,
                                                    D=(2 if th else 1)))
+    # the same synapse reached by assigning dt / spike charge / delay after construction
+    for syn in SYN:
+        for dt, dmul in ((1.3, 0), (1.0, 2)) + (((0.5, 2.5),) if th else ()):
+            run.append(dict(syn=syn, dt=dt, delay=dmul * dt, B=2, shape=(2,), inplace=False, T=4, interp="previous", tol=0.0, overbound=(0.0, False), dirty=False, via_setter=True))
     o = {"div_policy": "xr", "query_timeout_ms": 120000}
     return [Check("run", h_run, run, opts=o, timeout_s=900), Check("delayed", h_delayed, dl, opts=o, timeout_s=900)]
 
 
 BOUNDS = {
     "quick": {"synapses": 4, "dt": [1.0, 1.3], "delay": ["0", "2dt", "2.5dt"], "interp": ["previous", "nearest"], "tol": [0, 1e-3], "overbound": ["(0.0, False)", "(0.7, True)", "(None, None)"],
-              "batch": [1, 2], "shape": "(2,)", "steps": "4 from clear (closed form) + 1 from an arbitrary planted history", "selector": "symbolic per element in [-1, delay+2dt]"},
+              "batch": [1, 2], "shape": "(2,)", "steps": "4 from clear (closed form) + 1 from an arbitrary planted history; also with dt, spike charge and delay assigned after construction", "selector": "symbolic per element in [-1, delay+2dt]"},
     "thorough": {"synapses": 4, "dt": [1.0, 0.5, 1.3], "delay": ["0", "dt", "2dt", "2.5dt"], "steps": "6 from clear + 1 from arbitrary history, every pointer", "selector": "symbolic, D=2"},
 }
 OUTSIDE = ["float32 rounding of the recurrences (constants are the float32 numbers the tensor computation sees)", "time constants other than the two documented-valid sets"]
